@@ -560,19 +560,45 @@ class Interp:
             self.frame.env[a.asname or a.name] = self.models.external(st.module or "", a.name, a.asname or a.name, st)
 
     def st_With(self, st):
+        cms = []
         for item in st.items:
             cm = self.eval(item.context_expr)
+            if getattr(cm, "suppress", None) is not None:
+                cms.append(cm)
+                if item.optional_vars is not None:
+                    self.assign(item.optional_vars, NONE)
+                continue
             ent = self.models.get_attr(cm, "__enter__", st)
             v = self.models.call(ent, [], {}, st)
+            cms.append(cm)
             if item.optional_vars is not None:
                 self.assign(item.optional_vars, v)
+
+        def leave(exc):
+            """Run the exit handlers innermost first; -> is the exception swallowed?"""
+            swallowed = False
+            for cm in reversed(cms):
+                if getattr(cm, "suppress", None) is not None:
+                    if exc is not None and not swallowed and \
+                            any(self.exc_is_subclass(exc.name, n) for n in cm.suppress):
+                        swallowed = True
+                    continue
+                ex = self.models.get_attr(cm, "__exit__", st)
+                info = [NONE, NONE, NONE] if exc is None or swallowed else [OpaqueV("exc-type"), OpaqueV("exc"), OpaqueV("tb")]
+                r = self.models.call(ex, info, {}, st)
+                if exc is not None and not swallowed and self.truth(r, st):
+                    swallowed = True
+            return swallowed
         try:
             self.exec_block(st.body)
-        finally:
-            for item in st.items:
-                cm = self.eval(item.context_expr)
-                ex = self.models.get_attr(cm, "__exit__", st)
-                self.models.call(ex, [NONE, NONE, NONE], {}, st)
+        except AbsRaise as ar:
+            if leave(ar.exc):
+                return
+            raise
+        except (ReturnSig, BreakSig, ContinueSig):
+            leave(None)
+            raise
+        leave(None)
 
     # ------------------------------------------------------------ truthiness
     def truth(self, v: V, node=None) -> bool:
